@@ -788,3 +788,10 @@ mod tests {
         assert_eq!(index, other);
     }
 }
+
+// Verification hook (inactive unless built with `--cfg agdb_verif` under Kani).
+#[cfg(all(agdb_verif, kani))]
+#[allow(unused, dead_code, clippy::all)]
+pub(crate) mod verif_h {
+    include!(concat!(env!("AGDB_VERIF_HARNESS"), "/storage_h.rs"));
+}
